@@ -9,7 +9,7 @@
 (* indices, so that TLC's workers share the file.  The driver checks that  *)
 (* the number of distinct states equals the number of records.             *)
 (***************************************************************************)
-EXTENDS Num, Json, IOUtils
+EXTENDS Rel, Json, IOUtils
 
 CONSTANTS W,      \* number of chains
           PROP    \* property id, e.g. "C02"
@@ -67,11 +67,33 @@ Clauses(r) ==
             <<"C08_float_value", C08_float_value(r)>> >>
     [] OTHER -> <<>>
 
+\* relational properties: the record is a tuple of results
+PairClauses(p) ==
+  CASE PROP = "C15" ->
+         << <<"C15_len", C15_len(p)>>, <<"C15_toks", C15_toks(p)>>, <<"C15_errs", C15_errs(p)>> >>
+    [] PROP = "C16" ->
+         << <<"C16_len", C16_len(p)>>, <<"C16_toks", C16_toks(p)>>, <<"C16_errs", C16_errs(p)>> >>
+    [] PROP = "C17" ->
+         << <<"C17_len", C17_len(p)>>, <<"C17_toks", C17_toks(p)>>, <<"C17_errs", C17_errs(p)>> >>
+    [] PROP = "C18" ->
+         << <<"C18_len", C18_len(p)>>, <<"C18_erase", C18_erase(p)>>, <<"C18_errs", C18_errs(p)>>,
+            <<"C18_placement", C18_placement(p)>> >>
+    [] PROP = "C19" ->
+         << <<"C19_same", C19_same(p)>>, <<"C19_events", C19_events(p)>> >>
+    [] OTHER -> <<>>
+IsPair == PROP \in {"C15", "C16", "C17", "C18", "C19"}
+
 Emit(id, cl) ==
   cl[2] = {} \/ PrintT(<<"VERDICT", id, cl[1], Cardinality(cl[2]), CHOOSE x \in cl[2] : TRUE>>)
 
+ReportPair(p) ==
+  IF ~(CertOK(p.a) /\ CertOK(p.b) /\ (PROP = "C15" => CertOK(p.ab))) THEN PrintT(<<"CERTFAIL", p.id>>)
+  ELSE IF PROP \in {"C16", "C17", "C18"} /\ ~Ok2(p) THEN PrintT(<<"SKIPPED", p.id>>)
+  ELSE LET cls == PairClauses(p) IN \A i \in 1..Len(cls) : Emit(p.id, cls[i])
+
 Report(r) ==
-  IF ~CertOK(r) THEN PrintT(<<"CERTFAIL", r.id>>)
+  IF IsPair THEN ReportPair(r)
+  ELSE IF ~CertOK(r) THEN PrintT(<<"CERTFAIL", r.id>>)
   ELSE IF PROP # "C01" /\ (~r.ok \/ r.budget_exceeded) THEN PrintT(<<"SKIPPED", r.id>>)
   ELSE LET cls == Clauses(r) IN \A i \in 1..Len(cls) : Emit(r.id, cls[i])
 
